@@ -35,7 +35,7 @@ def build():
     u.prelude("stdx")
     u.raw("", VFMT, trusted=True)
     u.drop_derives = {"Debug", "Deserialize", "Serialize", "Eq", "Hash"}
-    u.module("crypto", "use crate::vfmt as fmt;\nuse crate::vfmt::FromStr;\nuse crate::vfmt::Error;")
+    u.module("crypto", "use crate::vfmt as fmt;\nuse crate::vfmt::FromStr;\nuse crate::vfmt::Error;\nuse crate::strext::StrExt;")
     u.take(J, "JwsSignatureAlgorithm", "crypto", keep_derives=("Clone", "Copy", "PartialEq"))
     u.take(K, "KeyType", "crypto", keep_derives=("Clone", "Copy", "PartialEq"))
     u.take(C, "BaseHashFunction", "crypto", keep_derives=("Clone", "Copy", "PartialEq"))
@@ -44,6 +44,8 @@ def build():
     u.verify(J, "impl FromStr for JwsSignatureAlgorithm", "crypto", props=["C11", "C14"], fns={"from_str": parse("alg_parse", ["C11", "C14"])})
     u.verify(K, "impl fmt::Display for KeyType", "crypto", props=["C14", "C16", "C15"], fns={"fmt": display("kt_text", ["C14", "C16", "C15"])})
     u.verify(K, "impl FromStr for KeyType", "crypto", props=["C14", "C16", "C15", "C02"], fns={"from_str": parse("kt_parse", ["C14", "C16", "C15", "C02"])})
+    u.verify(C, "impl FromStr for BaseHashFunction", "crypto", props=["C01", "C16"], fns={"from_str": parse("hash_parse", ["C01", "C16"])})
+    u.verify(C, "impl fmt::Display for BaseHashFunction", "crypto", props=["C01", "C16"], fns={"fmt": display("hash_text", ["C01", "C16"])})
     u.raw("crypto", CRYPTO_LEMMAS)
     u.module("acme_proto", "use crate::vfmt as fmt;\nuse crate::vfmt::Error;")
     u.take(AP, "Challenge", "acme_proto", keep_derives=("Clone", "Copy", "PartialEq"))
@@ -149,6 +151,12 @@ pub open spec fn kt_parse(s: Seq<char>) -> Option<KeyType> {
     else if l == "ecdsa_p256"@ { Some(KeyType::EcdsaP256) } else if l == "ecdsa_p384"@ { Some(KeyType::EcdsaP384) }
     else if l == "ecdsa_p521"@ { Some(KeyType::EcdsaP521) } else if l == "ed25519"@ { Some(KeyType::Ed25519) }
     else if l == "ed448"@ { Some(KeyType::Ed448) } else { None }
+}
+// the digest names of the configuration (csr_digest, tacd --crt-digest): sha256 / sha384 / sha512, whatever the case, `-` and `_` ignored - and no other
+pub open spec fn hash_parse(s: Seq<char>) -> Option<BaseHashFunction> {
+    let l = crate::vfmt::replaced_set(crate::vfmt::lower(s), seq!['-', '_'], ""@);
+    if l == "sha256"@ { Some(BaseHashFunction::Sha256) } else if l == "sha384"@ { Some(BaseHashFunction::Sha384) }
+    else if l == "sha512"@ { Some(BaseHashFunction::Sha512) } else { None }
 }
 pub open spec fn hash_text(h: BaseHashFunction) -> Seq<char> {
     match h { BaseHashFunction::Sha256 => "sha256"@, BaseHashFunction::Sha384 => "sha384"@, BaseHashFunction::Sha512 => "sha512"@ }
